@@ -249,6 +249,14 @@ func mergeStringMaps(src, dest map[string]any) {
 			}
 			continue
 		}
+		// Nested maps are copied, not shared: a later merge into dest must
+		// not write through into the map of the level it was inherited from.
+		if srcMap, ok := srcValue.(map[string]any); ok {
+			copied := make(map[string]any, len(srcMap))
+			mergeStringMaps(srcMap, copied)
+			dest[srcKey] = copied
+			continue
+		}
 		// Otherwise, set the value directly
 		dest[srcKey] = srcValue
 	}
